@@ -55,6 +55,35 @@ _AFTER_LOOP = (
     '                    self.wfile.write(b"0\\r\\n\\r\\n")\n'
 )
 
+_HDR_LOOP = (
+    "        for key, value in self.headers.items():\n"
+    '            if "_" in key:\n'
+    "                continue\n"
+    "\n"
+    '            key = key.upper().replace("-", "_")\n'
+    '            value = value.replace("\\r\\n", "")\n'
+    '            if key not in ("CONTENT_TYPE", "CONTENT_LENGTH"):\n'
+    '                key = f"HTTP_{key}"\n'
+    "                if key in environ:\n"
+    '                    value = f"{environ[key]},{value}"\n'
+    "            environ[key] = value\n"
+)
+_TE_TEST = '        if environ.get("HTTP_TRANSFER_ENCODING", "").strip().lower() == "chunked":\n'
+_READINTO = "    def readinto(self, buf: bytearray) -> int:  # type: ignore\n"
+_TERM_CALL = "            if self._len == 0:\n                self._skip_terminator()\n"
+
+
+def _term_helper(accepted: str) -> str:
+    return (
+        "    def _skip_terminator(self) -> None:\n"
+        "        line = self._rfile.readline()\n"
+        "        if line in " + accepted + ":\n"
+        "            return\n"
+        '        raise OSError("Missing chunk terminating newline")\n'
+        "\n" + _READINTO
+    )
+
+
 MUTANTS = [
     # ---- R19.1 ------------------------------------------------------------
     {"name": "chunks-304", "expect": "R19.1", "edits": [(S, "or code in {204, 304}", "or code in {204}")]},
@@ -65,6 +94,8 @@ MUTANTS = [
     {"name": "header-names-not-lowered", "expect": "R19.1", "edits": [(S, "header_keys.add(key.lower())", "header_keys.add(key)")]},
     {"name": "transfer-encoding-always", "expect": "R19.1", "edits": [(S, '                    chunk_response = True\n                    self.send_header("Transfer-Encoding", "chunked")\n', '                    chunk_response = True\n\n                self.send_header("Transfer-Encoding", "chunked")\n')]},
     {"name": "flag-starts-true", "expect": "R19.1", "edits": [(S, "chunk_response: bool = False", "chunk_response: bool = True")]},
+    {"name": "content-length-search-case-sensitive", "expect": "R19.1", "edits": [(S, '                        "content-length" in header_keys\n', '                        any(name == "content-length" for name, _ in headers_sent)\n')]},
+    {"name": "status-class-local-off-by-one", "expect": "R19.1", "edits": [(S, "                        or (100 <= code < 200)\n", "                        or status_class == 1\n"), (S, "                header_keys = set()\n", "                header_keys = set()\n                status_class = (code - 1) // 100\n")]},
     # ---- R19.2 ------------------------------------------------------------
     {"name": "size-line-before-empty-test", "expect": "R19.2", "edits": [(S, _WRITE,
         "            if chunk_response:\n"
@@ -92,6 +123,11 @@ MUTANTS = [
         "                if not headers_sent:\n"
         '                    write(b"")\n')]},
     {"name": "empty-header-values-dropped", "expect": "R19.2", "edits": [(S, "                    self.send_header(key, value)\n", "                    if value:\n                        self.send_header(key, value)\n")]},
+    {"name": "header-latch-on-application-list", "expect": "R19.2", "edits": [(S, "            if status_sent is None:\n                status_sent = status_set", "            if not headers_sent:\n                status_sent = status_set")]},
+    {"name": "header-latch-never-closed", "expect": "R19.2", "edits": [
+        (S, "                status_sent = status_set\n                headers_sent = headers_set\n", "                headers_sent = headers_set\n"),
+        (S, "code_str, msg = status_sent.split(None, 1)", "code_str, msg = status_set.split(None, 1)"),
+        (S, 'code_str, msg = status_sent, ""', 'code_str, msg = status_set, ""')]},
     # ---- R19.3 ------------------------------------------------------------
     {"name": "size-handler-too-narrow", "expect": "R19.3", "edits": [(S, "        except ValueError as e:\n            raise OSError(\"Invalid chunk header\") from e", "        except UnicodeDecodeError as e:\n            raise OSError(\"Invalid chunk header\") from e")]},
     {"name": "size-parsed-decimal", "expect": "R19.3", "edits": [(S, "_len = int(line.strip(), 16)", "_len = int(line.strip())")]},
@@ -114,6 +150,8 @@ MUTANTS = [
     {"name": "terminator-read-before-copy", "expect": "R19.3", "edits": [(S, _TERM, ""), (S, "            if self._len > 0:\n", _TERM + "\n            if self._len > 0:\n")]},
     {"name": "end-flag-when-chunk-consumed", "expect": "R19.3", "edits": [(S, _DONE, ""), (S, _COPY, _COPY + "\n" + _DONE)]},
     {"name": "terminator-never-read", "expect": "R19.3", "edits": [(S, "                terminator = self._rfile.readline()\n", '                terminator = b"\\n"\n')]},
+    {"name": "terminator-helper-accepts-eof", "expect": "R19.3", "edits": [(S, _TERM, _TERM_CALL), (S, _READINTO, _term_helper('(b"\\n", b"\\r\\n", b"\\r", b"")'))]},
+    {"name": "terminator-helper-called-while-chunk-remains", "expect": "R19.3", "edits": [(S, _TERM, "            self._skip_terminator()\n"), (S, _READINTO, _term_helper('(b"\\n", b"\\r\\n", b"\\r")'))]},
     # ---- R19.4 ------------------------------------------------------------
     {"name": "terminated-flag-unconditional", "expect": "R19.4", "edits": [(S, '            environ["wsgi.input_terminated"] = True\n            environ["wsgi.input"]', '            environ["wsgi.input"]'), (S, "        # Per RFC 2616, if the URL is absolute, use that as the host.", '        environ["wsgi.input_terminated"] = True\n\n        # Per RFC 2616, if the URL is absolute, use that as the host.')]},
     {"name": "terminated-flag-forgotten", "expect": "R19.4", "edits": [(S, '            environ["wsgi.input_terminated"] = True\n', "")]},
@@ -125,6 +163,14 @@ MUTANTS = [
     {"name": "double-slash-segment-lost", "expect": "R19.4", "edits": [(S, '            path_info = f"/{request_url.netloc}{request_url.path}"', "            path_info = request_url.path")]},
     {"name": "repeated-header-order-reversed", "expect": "R19.4", "edits": [(S, 'value = f"{environ[key]},{value}"', 'value = f"{value},{environ[key]}"')]},
     {"name": "method-from-environ-default", "expect": "R19.4", "edits": [(S, '"REQUEST_METHOD": self.command,', '"REQUEST_METHOD": self.command or "GET",')]},
+    {"name": "transfer-encoding-looked-up-before-headers", "expect": "R19.4", "edits": [
+        (S, '        for key, value in self.headers.items():\n            if "_" in key:\n', '        te = environ.get("HTTP_TRANSFER_ENCODING", "")\n\n        for key, value in self.headers.items():\n            if "_" in key:\n'),
+        (S, _TE_TEST, '        if te.strip().lower() == "chunked":\n')]},
+    {"name": "transfer-encoding-case-sensitive", "expect": "R19.4", "edits": [(S, _TE_TEST, '        if environ.get("HTTP_TRANSFER_ENCODING", "").strip() == "chunked":\n')]},
+    {"name": "underscore-name-ends-header-copy", "expect": "R19.4", "edits": [(S, '            if "_" in key:\n                continue\n', '            if "_" in key:\n                break\n')]},
+    {"name": "repeated-header-overwritten", "expect": "R19.4", "edits": [(S, '                if key in environ:\n                    value = f"{environ[key]},{value}"\n', "")]},
+    {"name": "one-header-name-dropped", "expect": "R19.4", "edits": [(S, "            environ[key] = value\n", '            if key != "HTTP_PROXY":\n                environ[key] = value\n')]},
+    {"name": "join-tests-unprefixed-name", "expect": "R19.4", "edits": [(S, '                key = f"HTTP_{key}"\n                if key in environ:\n', '                if key in environ:\n                    pass\n                key = f"HTTP_{key}"\n                if key[5:] in environ:\n')]},
 ]
 
 TWINS = [
@@ -174,4 +220,40 @@ TWINS = [
         '        if not request_url.scheme and request_url.netloc:\n            path_info = f"/{request_url.netloc}{request_url.path}"\n        else:\n            path_info = request_url.path\n',
         '        path_info = f"/{request_url.netloc}{request_url.path}" if not request_url.scheme and request_url.netloc else request_url.path\n')]},
     {"name": "terminator-test-respelled", "edits": [(S, '                if chunk_response:\n                    self.wfile.write(b"0\\r\\n\\r\\n")\n', '                if not chunk_response:\n                    pass\n                else:\n                    self.wfile.write(b"0\\r\\n\\r\\n")\n')]},
+    {"name": "terminator-read-in-helper", "edits": [(S, _TERM, _TERM_CALL), (S, _READINTO, _term_helper('{b"\\r\\n", b"\\n", b"\\r"}'))]},
+    {"name": "header-loop-restructured", "edits": [(S, _HDR_LOOP,
+        "        for key, value in self.headers.items():\n"
+        '            if "_" not in key:\n'
+        '                name = key.upper().replace("-", "_")\n'
+        '                value = value.replace("\\r\\n", "")\n'
+        '                if name == "CONTENT_TYPE" or name == "CONTENT_LENGTH":\n'
+        "                    environ[name] = value\n"
+        "                    continue\n"
+        '                name = "HTTP_" + name\n'
+        "                earlier = environ.get(name)\n"
+        '                environ[name] = value if earlier is None else ",".join([earlier, value])\n')]},
+    {"name": "transfer-encoding-lookup-hoisted", "edits": [(S, _TE_TEST, '        coding = environ.get("HTTP_TRANSFER_ENCODING", "")\n        is_chunked = coding.strip().lower() == "chunked"\n\n        if is_chunked:\n')]},
+    {"name": "header-latch-respelled", "edits": [(S, "            if status_sent is None:\n                status_sent = status_set", "            if not (status_sent is not None):\n                status_sent = status_set")]},
+    {"name": "chunk-header-read-in-helper", "edits": [
+        (S, "                self._len = self.read_chunk_len()\n\n" + _DONE, "                self._begin_chunk()\n\n"),
+        (S, _READINTO, "    def _begin_chunk(self) -> None:\n        \"\"\"read the next chunk header\"\"\"\n        self._len = self.read_chunk_len()\n        if self._len == 0:\n            self._done = True\n\n" + _READINTO)]},
+    {"name": "chunk-consumed-predicate", "edits": [
+        (S, _TERM, _TERM.replace("            if self._len == 0:\n", "            if self._chunk_consumed():\n")),
+        (S, _READINTO, "    def _chunk_consumed(self) -> bool:\n        return self._len == 0\n\n" + _READINTO)]},
+    {"name": "url-components-unpacked", "edits": [
+        (S, "        request_url = urlsplit(self.path)\n", "        request_url = urlsplit(self.path)\n        scheme, netloc, path, query, _ = request_url\n"),
+        (S, '        if not request_url.scheme and request_url.netloc:\n            path_info = f"/{request_url.netloc}{request_url.path}"\n        else:\n            path_info = request_url.path\n\n        path_info = unquote(path_info)\n',
+            '        if scheme or not netloc:\n            raw = path\n        else:\n            raw = "/" + netloc + path\n'),
+        (S, '"PATH_INFO": _wsgi_encoding_dance(path_info),', '"PATH_INFO": _wsgi_encoding_dance(unquote(raw)),'),
+        (S, '"QUERY_STRING": _wsgi_encoding_dance(request_url.query),', '"QUERY_STRING": _wsgi_encoding_dance(query),')]},
+    {"name": "decision-with-hoisted-locals", "edits": [(S, _DECISION,
+        '                method = environ["REQUEST_METHOD"]\n'
+        "                status_class = code // 100\n"
+        "                bodyless = status_class == 1 or code in (204, 304)\n"
+        '                has_length = any(name.lower() == "content-length" for name, _ in headers_sent)\n'
+        "                if (\n"
+        '                    not (has_length or method == "HEAD" or bodyless)\n'
+        '                    and self.protocol_version >= "HTTP/1.1"\n'
+        "                ):\n")]},
+    {"name": "status-split-by-partition", "edits": [(S, "                try:\n                    code_str, msg = status_sent.split(None, 1)\n                except ValueError:\n                    code_str, msg = status_sent, \"\"\n", '                code_str, _, msg = status_sent.partition(" ")\n')]},
 ]
